@@ -22,7 +22,9 @@ RULE = (
     "for_in, start_with (0-3 values), repeat(n in 0..4 | None, optional take), retry(n in 0..4 | None, optional take), "
     "catch (factory, catch_with_iterable list/generator, ops.catch(observable), ops.catch(handler) with handler results "
     "chosen by error tag incl. the source itself), on_error_resume_next (factory with observables and error->observable "
-    "callables, ops form), while_do / do_while with scripted conditions; subscribed at a generated tick on the virtual "
+    "callables, ops form), while_do / do_while with scripted conditions, and composed forms in which a finite repeat(n) is "
+    "re-subscribed (repeat in repeat, retry around repeat, repeat around retry, concat(r, r) of one repeat(n) object, "
+    "while_do / do_while around repeat(n)) so that it must run n times per subscription; subscribed at a generated tick on the virtual "
     "scheduler or through the default CurrentThreadScheduler trampoline. Oracle: (a) closed-form walk over the timelines "
     "gives the exact expected trace (ticks, values, terminal) = concatenation of the consumed sources' elements offset by "
     "the previous terminal's tick; (b) over the subscription logs: the global subscription order and subscribe ticks "
@@ -116,7 +118,163 @@ def _plan(case):
     raise HarnessError(f"op {op}")
 
 
+class _Stop(Exception):
+    pass
+
+
+def model_tree(case):
+    """Closed-form walk for composed forms (op == "compose"): case["tree"] is
+    {"leaf": i} | {"repeat": n, "of": T} | {"retry": n, "of": T} | {"concat": [T, ...]} | {"while": T} | {"do_while": T}
+    (the while/do_while condition is the case-wide script case["cond"], consumed call by call).  Every re-subscription
+    of a composed observable starts afresh: repeat(n) inside a re-subscribing operator runs n times per subscription."""
+    srcs = case["srcs"]
+    st_ = {"t": case["t0"], "runs": 0, "cond": 0, "taken": 0}
+    out, subs = [], []
+    counts = [0] * len(srcs)
+    take = case.get("take")
+    conds = list(case.get("cond") or [])
+
+    def cond():
+        k = st_["cond"]
+        st_["cond"] += 1
+        return conds[k] if k < len(conds) else False
+
+    def ev(node):
+        if "leaf" in node:
+            i = node["leaf"]
+            st_["runs"] += 1
+            if st_["runs"] > 2 * MAXRUNS:
+                raise _Stop("diverges")
+            tl = _tls(srcs[i])
+            tl = tl[min(counts[i], len(tl) - 1)]
+            counts[i] += 1
+            t = st_["t"]
+            rec = {"src": i, "sub": t, "term": None, "kind": None}
+            subs.append(rec)
+            for dt, kind, payload in tl:
+                tick = t + dt
+                if kind == "N":
+                    out.append([tick, "N", canon(val(payload))])
+                    st_["taken"] += 1
+                    if take is not None and st_["taken"] == take:
+                        out.append([tick, "C", None])
+                        rec["term"], rec["kind"] = tick, "cut"
+                        raise _Stop("cut")
+                else:
+                    rec["term"], rec["kind"] = tick, kind
+                    st_["t"] = tick
+                    return (kind, payload)
+            raise _Stop("hang")
+        if "repeat" in node:
+            for _ in range(node["repeat"]):
+                r = ev(node["of"])
+                if r[0] != "C":
+                    return r
+            return ("C", None)
+        if "retry" in node:
+            r = None
+            for _ in range(node["retry"]):  # n >= 1 by construction
+                r = ev(node["of"])
+                if r[0] == "C":
+                    return r
+            return r
+        if "concat" in node:
+            for sub in node["concat"]:
+                r = ev(sub)
+                if r[0] != "C":
+                    return r
+            return ("C", None)
+        if "while" in node or "do_while" in node:
+            body = node.get("while") or node.get("do_while")
+            if "do_while" in node:
+                r = ev(body)
+                if r[0] != "C":
+                    return r
+            while cond():
+                r = ev(body)
+                if r[0] != "C":
+                    return r
+            return ("C", None)
+        raise HarnessError(f"node {node}")
+
+    try:
+        k, p_ = ev(case["tree"])
+        out.append([st_["t"], k, ["exc", p_] if k == "E" else None])
+    except _Stop as e:
+        if e.args[0] == "diverges":
+            return {"diverges": True}
+    return {"out": out, "subs": subs, "free_terminal": False}
+
+
+def build_tree(case, lab, S):
+    conds = list(case.get("cond") or [])
+    calls = [0]
+
+    def cond(_src):
+        k = calls[0]
+        calls[0] += 1
+        return conds[k] if k < len(conds) else False
+
+    f = lab.fn("cond", cond)
+    memo = {}
+
+    def mk(node):
+        if "leaf" in node:
+            return S[node["leaf"]]
+        if "repeat" in node:
+            return mk(node["of"]).pipe(ops.repeat(node["repeat"]))
+        if "retry" in node:
+            return mk(node["of"]).pipe(ops.retry(node["retry"]))
+        if "concat" in node:
+            parts = []
+            for sub in node["concat"]:
+                key = repr(sub)
+                if key not in memo:  # identical sub-trees are the *same* observable object, subscribed again
+                    memo[key] = mk(sub)
+                parts.append(memo[key])
+            return reactivex.concat(*parts)
+        if "while" in node:
+            return mk(node["while"]).pipe(ops.while_do(f))
+        if "do_while" in node:
+            return mk(node["do_while"]).pipe(ops.do_while(f))
+        raise HarnessError(f"node {node}")
+
+    o = mk(case["tree"])
+    if case.get("take") is not None:
+        o = o.pipe(ops.take(case["take"]))
+    return o
+
+
+def _shape(node):
+    if "leaf" in node:
+        return "s"
+    for k in ("repeat", "retry"):
+        if k in node:
+            return f"{k}({_shape(node['of'])})"
+    if "concat" in node:
+        return "concat(" + ",".join(_shape(x) for x in node["concat"]) + ")"
+    k = "while" if "while" in node else "do_while"
+    return f"{k}({_shape(node[k])})"
+
+
+def _has_inner_repeat(node, under=False):
+    """a finite repeat(n) that sits below a re-subscribing operator (or is subscribed twice by concat)."""
+    if "leaf" in node:
+        return False
+    if "repeat" in node:
+        return under or _has_inner_repeat(node["of"], True)
+    if "retry" in node:
+        return _has_inner_repeat(node["of"], True)
+    if "concat" in node:
+        reprs = [repr(x) for x in node["concat"]]
+        return any(_has_inner_repeat(x, under or reprs.count(repr(x)) > 1) for x in node["concat"])
+    k = "while" if "while" in node else "do_while"
+    return _has_inner_repeat(node[k], True)
+
+
 def model(case):
+    if case["op"] == "compose":
+        return model_tree(case)
     srcs = case["srcs"]
     t = case["t0"]
     out, subs = [], []
@@ -176,6 +334,8 @@ def model(case):
 
 def build(case, lab, S):
     op, form = case["op"], case["form"]
+    if op == "compose":
+        return build_tree(case, lab, S)
     order = case.get("order", [])
     seq = [S[i] for i in order]
     n = case.get("n")
@@ -246,7 +406,7 @@ def build(case, lab, S):
 
 CONT = {
     "concat": "C", "concat_with_iterable": "C", "for_in": "C", "start_with": "C", "repeat": "C", "while_do": "C", "do_while": "C",
-    "retry": "E", "catch": "E", "on_error_resume_next": "CE",
+    "retry": "E", "catch": "E", "on_error_resume_next": "CE", "compose": "CE",
 }
 
 
@@ -269,6 +429,13 @@ def _run(case):
     subs = all_subs(S)
     exp_subs = m["subs"]
     cls = [op, f"subs={min(len(exp_subs), 5)}"]
+    if op == "compose":
+        who = "compose/" + _shape(case["tree"])
+        cls.append("shape:" + _shape(case["tree"]))
+        if _has_inner_repeat(case["tree"]):
+            cls.append("repeat(n)-resubscribed")
+            if len(exp_subs) >= 3:
+                cls.append("repeat(n)-resubscribed:>=3-runs")
     cls.append("sched:" + str(case["sched"]))
     if any(s["kind"] == "sync" for s in case["srcs"]):
         cls.append("has-sync-source")
@@ -304,7 +471,7 @@ def _run(case):
     got_seq = [(d["src"], d["sub"]) for d in subs]
     exp_seq = [(r["src"], r["sub"]) for r in exp_subs]
     if got_seq != exp_seq:
-        if op == "repeat" and all(r["kind"] == "C" for r in exp_subs) and len(got_seq) != len(exp_seq):
+        if (op == "repeat" or (op == "compose" and "repeat" in who)) and all(r["kind"] == "C" for r in exp_subs) and len(got_seq) != len(exp_seq):
             clause = "repeat-count"
         elif op == "retry" and case.get("n") is not None and len(got_seq) > case["n"]:
             clause = "retry-count"
@@ -407,6 +574,42 @@ def _counts(draw):
 
 
 @st.composite
+def _nested(draw):
+    """Composed forms: a finite repeat(n) below another re-subscribing operator, so that the same repeat(n)
+    observable is subscribed several times and must run n times each time."""
+    leaf = {"leaf": 0}
+    n1 = draw(st.sampled_from([2, 3, 1, 2, 3, 0]))
+    n2 = draw(st.sampled_from([2, 3, 2, 1]))
+    shape = draw(st.sampled_from(["rep_rep", "retry_rep", "rep_retry", "concat_rep_rep", "while_rep", "do_while_rep", "rep_concat", "rep_rep_rep"]))
+    cond = []
+    inner = {"repeat": n1, "of": leaf}
+    if shape == "rep_rep":
+        tree = {"repeat": n2, "of": inner}
+    elif shape == "rep_rep_rep":
+        tree = {"repeat": 2, "of": {"repeat": n2, "of": {"repeat": max(n1, 1) if n1 < 3 else 2, "of": leaf}}}
+    elif shape == "retry_rep":
+        tree = {"retry": n2, "of": inner}
+    elif shape == "rep_retry":
+        tree = {"repeat": n2, "of": {"retry": max(n1, 1), "of": leaf}}
+    elif shape == "concat_rep_rep":
+        k = draw(st.sampled_from([2, 3]))
+        tree = {"concat": [inner] * k}
+    elif shape == "rep_concat":
+        tree = {"repeat": n2, "of": {"concat": [leaf, inner]}}
+    else:
+        k = draw(st.sampled_from([2, 3, 1, 4]))
+        cond = [draw(st.sampled_from([True, True, True, True, False])) for _ in range(k)]
+        tree = {"while" if shape == "while_rep" else "do_while": inner}
+    terms = _MOSTLY_E if shape == "retry_rep" and draw(st.booleans()) else ("C", "C", "C", "C", "C", "E", "C", "C", "C", None)
+    src = _scripted(draw, terms)
+    take = draw(st.integers(1, 8)) if draw(st.integers(0, 5)) == 0 else None
+    c = {"op": "compose", "form": shape, "srcs": [src], "tree": tree, "cond": cond, "take": take}
+    for k_, s_ in _COMMON.items():
+        c[k_] = draw(s_)
+    return c
+
+
+@st.composite
 def _catches(draw):
     fam = draw(st.sampled_from(["catch", "catch", "oern"]))
     terms = _MOSTLY_E if fam == "catch" else ("C", "E", "C", "E", "C", "E", None)
@@ -461,7 +664,7 @@ def checks(tier):
     sh = {"quick": 4, "thorough": 16}
     return [
         Check("lists", _run, strategy=_lists(), examples=ex(1400), shards=sh),
-        Check("counts", _run, strategy=_counts(), examples=ex(1000), shards=sh),
+        Check("counts", _run, strategy=st.one_of(_counts(), _nested()), examples=ex(1600), shards=sh),
         Check("catch", _run, strategy=_catches(), examples=ex(1400), shards=sh),
         Check("loops", _run, strategy=_loops(), examples=ex(800), shards=sh),
     ]
